@@ -32,6 +32,8 @@ inductive Fault
   | index                -- index or slice bounds out of range
   | shift                -- negative shift count
   | fuel                 -- the fuel handed to a `for cond {…}` loop ran out: NOT a Go behaviour
+  | alias                -- an append would have left the array a view looks into (Go allocates): outside what
+                         -- views model; NOT a Go behaviour — a tie theorem must show it unreachable
 deriving DecidableEq, Repr
 
 abbrev M := Except Fault
@@ -317,6 +319,46 @@ def bufio_ReadBytes (rd : List UInt8) (delim : UInt8) : List UInt8 × Option Err
 /-- `rd.Peek(n)`: the next `n` bytes without consuming them, or what is left and io.EOF -/
 def bufio_Peek (rd : List UInt8) (n : Int) : List UInt8 × Option Err :=
   if n.toNat ≤ rd.length then (rd.take n.toNat, none) else (rd, ioEOF)
+
+/-! ## views (slices that alias an array field), io.Reader sources that may fail
+
+A VIEW is a window `base[lo:hi]` into an array owned by a struct (extract/funcs_views.go).
+`reslice` is Go's `v[a:b]` on it: the capacity reaches to the end of the base array. -/
+
+def reslice (lo cap a b : Int) : M (Int × Int) :=
+  if 0 ≤ a ∧ a ≤ b ∧ lo + b ≤ cap then .ok (lo + a, lo + b) else .error .index
+
+/-- `copy(base[at:], data)` for data that fits -/
+def writeAt (base : List UInt8) (at_ : Int) (data : List UInt8) : List UInt8 :=
+  base.take at_.toNat ++ data ++ base.drop (at_.toNat + data.length)
+
+/-- an `io.Reader`: the bytes it will deliver, and whether what comes after them is a clean end
+    or an error. (How a real reader cuts its deliveries into pieces, and a reader that returns
+    data together with its end, are not expressible here: the model's IO layer and the
+    correspondence deal with them.) -/
+structure Src where
+  data : List UInt8
+  fail : Bool
+
+def io_EOF : Option Err := some ⟨"io.EOF", 0, []⟩
+def io_ErrUnexpectedEOF : Option Err := some ⟨"io.ErrUnexpectedEOF", 0, []⟩
+/-- the source's own error -/
+def io_srcErr : Option Err := some ⟨"source", 0, []⟩
+
+/-- `io.ReadFull(src, buf)` with `len(buf) = n`: (bytes read, error, source afterwards) -/
+def io_ReadFull (s : Src) (n : Int) : List UInt8 × Option Err × Src :=
+  let got := s.data.take n.toNat
+  let rest : Src := ⟨s.data.drop n.toNat, s.fail⟩
+  if got.length = n.toNat then (got, none, rest)
+  else if s.fail then (got, io_srcErr, rest)
+  else if got.length = 0 then (got, io_EOF, rest)
+  else (got, io_ErrUnexpectedEOF, rest)
+
+/-- one `Read` into a buffer of `n ≥ 1` bytes: data if any is left, else the end -/
+def io_Read (s : Src) (n : Int) : List UInt8 × Option Err × Src :=
+  match s.data with
+  | [] => ([], if s.fail then io_srcErr else io_EOF, s)
+  | _ => (s.data.take n.toNat, none, ⟨s.data.drop n.toNat, s.fail⟩)
 
 /-! ## io.LimitReader, bufio.Scanner (default split function ScanLines, default buffer)
 
